@@ -49,7 +49,7 @@ func init() {
 	m := time.Minute
 	reg("C01", propCfg{Quick: tierCfg{Checks: 4000, Timeout: 8 * m}, Thor: tierCfg{Checks: 300000, Timeout: 60 * m, FuzzTime: 4 * m}, Fuzz: []string{"FuzzLoad"}})
 	reg("C02", propCfg{Quick: tierCfg{Checks: 200000, Timeout: 8 * m}, Thor: tierCfg{Checks: 3000000, Timeout: 60 * m, FuzzTime: 3 * m}, Fuzz: []string{"FuzzParse"}})
-	reg("C03", propCfg{Quick: tierCfg{Checks: 20000, Timeout: 8 * m}, Thor: tierCfg{Checks: 2000000, Timeout: 60 * m, FuzzTime: 3 * m}, Fuzz: []string{"FuzzBuild"}})
+	reg("C03", propCfg{Quick: tierCfg{Checks: 200000, Timeout: 8 * m}, Thor: tierCfg{Checks: 2000000, Timeout: 60 * m, FuzzTime: 3 * m}, Fuzz: []string{"FuzzBuild"}})
 	reg("C04", propCfg{Quick: tierCfg{Checks: 6000, Timeout: 8 * m}, Thor: tierCfg{Checks: 500000, Timeout: 60 * m}})
 	reg("C05", propCfg{NeedCLI: true, Quick: tierCfg{Checks: 480, Timeout: 8 * m}, Thor: tierCfg{Checks: 40000, Timeout: 60 * m}})
 	reg("C06", propCfg{Quick: tierCfg{Checks: 5000, Timeout: 8 * m}, Thor: tierCfg{Checks: 400000, Timeout: 60 * m}})
